@@ -192,6 +192,46 @@ def bounded_recursion(P, R, pc, rule='C14.MPT.5'):
     R.floor(rule, 2, 'recursive functions reachable from conf_read')
 
 
+NODE_RECS = ('conf_node_base', 'conf_node_string', 'conf_node_object', 'conf_node_string_list', 'conf_node_inaddr')
+NODE_TEXTS = ('name', 'value', 'hostname', 'service')
+
+
+def node_texts_read_only(P, R, rule='C16.OWN.2'):
+    """What the file said stays what the tree says: outside the configuration unit nobody writes into a node's name or
+    text - not directly, and not by handing it to a function that writes through the pointer it is given (a hook that
+    splits "facility.severities" in place, and leaves on an error before it has put the separator back, renames the
+    node in the live tree)."""
+    unit = P.need_fn('conf_read').unit
+    wp = P.written_params()
+    n = 0
+
+    def node_text(e):
+        return any(isinstance(x, dict) and x.get('k') == 'mem' and x.get('rec') in NODE_RECS and x.get('field') in NODE_TEXTS for x in walk(e))
+    for f in P.fns.values():
+        if f.unit == unit or f.unit.startswith('tests/'):
+            continue
+        for s in f.sites():
+            ev = s.ev
+            if ev['k'] == 'store':
+                lv = ev.get('lhs') or {}
+                # a byte of the text: x->name[i] = ..., *x->value = ...
+                if lv.get('k') in ('idx', 'un') and node_text(lv):
+                    n += 1
+                    R.ob(rule, False, s, '%s writes into the configuration text %s' % (f.name, sx(lv)), key='node-text-written:%s' % f.name)
+            if ev['k'] == 'call':
+                written = set(P.call_written_args(s, wp))
+                for i, a in enumerate(ev['args']):
+                    if not node_text(a):
+                        continue
+                    # only the text itself counts (its address taken, or a node pointer, is another matter)
+                    if not (isinstance(a, dict) and 'char' in (a.get('t') or '')):
+                        continue
+                    n += 1
+                    R.ob(rule, i not in written, s, '%s passes the configuration text %s to %s read-only' % (f.name, sx(a), ev.get('callee') or 'a callback'), key='node-text:%s:%s' % (f.name, ev.get('callee')),
+                         nontrivial=(i in written))
+    R.floor(rule, 3, 'uses of configuration texts outside the configuration unit')
+
+
 def defaults_read_only(P, R, rule='C14.OWN.6'):
     """A registered default outlives every load: after registration nothing writes it - neither directly nor by handing
     it to a function that writes through the pointer it is given (a setter that MOVES strings out of the vector it
